@@ -1311,7 +1311,8 @@ class Frame(object):
             if bit_signals == [] and startBit == -1:
                 startBit = index
             if (index == (len(bitfield)-1) or bit_signals != []) and startBit != -1:
-                if index == (len(bitfield)-1):
+                if index == (len(bitfield)-1) and bit_signals == []:
+                    # the gap runs up to and including the last bit
                     index = len(bitfield)
                 self.add_signal(Signal("_Dummy_%s_%d" % (self.name, sigCount), size=index - startBit, start_bit=startBit, is_little_endian = False))
                 startBit = -1
